@@ -651,6 +651,16 @@ theorem leak_counterexample_extended_md :
     ∃ D T h p e, e < (runO D h s₀).execs.length ∧ ¬ HistoryIndependentOn D T h p e :=
   ⟨D₀, Tconst, xmdStays.1.1, xmdStays.1.2, xmdStays.2, by decide, by unfold HistoryIndependentOn; decide⟩
 
+/-- (g) The name counter does NOT "only rename": `unique_name` concatenates name and index, so the
+columns `x1` (drawn at counter 1, as in a fresh process) and `x` (drawn ten names later) get the SAME
+member `_x11`; twelve names later in the life of the process (`_x113`, `_x23`) they are distinct.  The
+package of such a query is not the same up to renumbering in a fresh and in an old process.  The
+model's `View` leaves the counter out, i.e. the theorems above assume a query whose generated names
+do not collide (listed finding `nameCounter`, replayed on the real code). -/
+theorem leak_counterexample_name_counter :
+    uniqueName "x1" 1 true = uniqueName "x" 11 true ∧ uniqueName "x1" 13 true ≠ uniqueName "x" 23 true := by
+  decide
+
 /-! ### non-vacuity: the hypotheses are satisfiable by histories that really do something -/
 
 open Witness in
